@@ -58,6 +58,11 @@ def node_schema(node):
         return s
     if k == "alias":
         return ref(node[1])
+    if k == "wrapdef":
+        # the DEFINITION itself is an unnamed by-value wrapper of another definition (Pair = [D; 2], Operands = [D, D], Maybe = oneOf[D, null]):
+        # a newtype around an unnamed type, which a cycle may pass through
+        (ek, t), = node[1]
+        return member_schema(ek, t)
     if k == "ntobj":
         # an object schema carrying an allow list: typify renders a constrained newtype around an inner struct; the listed values
         # do not use the (optional) referring members
@@ -133,6 +138,7 @@ def node_options(n, reduced=False, max_edges=2):
         for combo in itertools.combinations_with_replacement(se, m):
             out.append(("struct", tuple(combo)))
     out += [("alias", t) for t in range(n)]
+    out += [("wrapdef", ((k, t),)) for k in ("tuple", "tuple2", "array") for t in range(n)]   # (a nullable wrapper of an alias-only cycle would be an ill-founded schema)
     # one-edge nodes of the other container kinds: allow-listed object (newtype around a struct; optional / heap members only, the
     # listed values cannot mention the referring member) and internally / adjacently tagged and untagged enums with a struct variant
     out += [("ntobj", ((k, t),)) for k in ("opt", "nullable", "vec") for t in range(n)]
